@@ -69,7 +69,7 @@ func DefaultRefNameResolver(doc *T, ref ComponentRef) string {
 		}
 
 		// Trim the common prefix with the root doc path.
-		if doc.url != nil {
+		if doc.url != nil && filePath != "" {
 			commonDir := path.Dir(doc.url.Path)
 			for {
 				if commonDir == "." { // no common prefix
